@@ -45,12 +45,12 @@ IsVar(t) == t[1] = "v"
 IsAp(t)  == t[1] = "ap"
 IsWild(t) == t[1] = "v" /\ t[2] = "_"
 
-Range(f) == {f[i] : i \in DOMAIN f}
+Ran(f) == {f[i] : i \in DOMAIN f}
 MaxOf(S) == CHOOSE x \in S : \A y \in S : y <= x
 MinOf(S) == CHOOSE x \in S : \A y \in S : x <= y
 
 \* Order-free reading of maps/structs: the set of key/value pairs.
-Entries(v) == Range(v[2])
+Entries(v) == Ran(v[2])
 
 \* Structural normal form used when two values that may contain maps are compared:
 \* entry sequences become sets (last binding of a key wins is NOT modelled; duplicate
@@ -59,7 +59,7 @@ RECURSIVE Norm(_)
 Norm(v) ==
   CASE v[1] = "pair" -> <<"pair", Norm(v[2]), Norm(v[3])>>
     [] v[1] = "list" -> <<"list", [i \in DOMAIN v[2] |-> Norm(v[2][i])]>>
-    [] v[1] \in {"map", "struct"} -> <<v[1], {<<Norm(e[1]), Norm(e[2])>> : e \in Range(v[2])}>>
+    [] v[1] \in {"map", "struct"} -> <<v[1], {<<Norm(e[1]), Norm(e[2])>> : e \in Ran(v[2])}>>
     [] OTHER -> v
 
 =============================================================================
